@@ -212,7 +212,7 @@ NoOverRejectAt(C, lg, e) ==
 \* where an external tensor can sit in a model (every one of them is read through the same
 \* access paths, so ir.load has to hand the base directory to all of them)
 Placements == {"initializer", "node-attribute", "tensors-attribute", "subgraph-initializer",
-               "subgraph-node-attribute", "nested-subgraph-node-attribute",
+               "subgraph-node-attribute", "nested-subgraph-node-attribute", "nested-subgraph-initializer",
                "function-node-attribute", "function-subgraph-initializer"}
 \* ir.load(path): base_dir of every external tensor of the model
 LoadBaseDir(mp) == LET d == Dirname(mp) IN IF LoadFix /\ IsEmptyS(d) THEN <<".">> ELSE d
